@@ -1948,3 +1948,36 @@ def uuid_generator_keeps_state(ctx):
                   "Util::generateUuid builds its engine '%s' on every call from %s: every call within one step of that seed returns the same id - two "
                   "chains fired on the same tick (or a chain re-fired at once) share a run uuid, and kill attempts share their kill uuid"
                   % (v["name"], (X(v["init"])[:80] if v.get("init") is not None and v.get("init", -1) >= 0 else "a default seed")))
+
+
+def failure_tests_see_the_sign(ctx, tag, roots, floor=3):
+    """A failed system call is recognised by its negative result.  In every function the given roots reach, a test `x < 0` (or `0 > x`)
+    is made on a signed value: on an unsigned one (the result was stored in a size_t, or cast on the way) the test is never true, the
+    error return behind it is dead and a failed write is reported as a success.  A contradiction rule - the code states the belief
+    "this can be negative" and the type says it cannot."""
+    P, cg = ctx.prog, ctx.cg
+    n = 0
+    for u in sorted(cg.reach([f.usr for q in roots for f in P.fn(q)])):
+        f = P.fns[u]
+        if not f.file.startswith("oomd/"):
+            continue
+        for i, nd in enumerate(f.nodes):
+            if nd["k"] != "bin" or nd.get("op") not in ("<", ">"):
+                continue
+            val, zero = (nd["l"], nd["r"]) if nd["op"] == "<" else (nd["r"], nd["l"])
+            if const_int(f, zero) != 0 or const_int(f, val) is not None:
+                continue
+            # the operand as compared: the usual arithmetic conversions have already been applied to it
+            tw = f.nodes[val].get("tw") or ""
+            src = f.nodes[f.strip(val)]
+            if not (tw.startswith("i") or tw.startswith("u")):
+                continue
+            n += 1
+            ctx.use(f)
+            ctx.check(not tw.startswith("u"), "failure-test-sees-the-sign:%s@%d" % (short(f), nd.get("line", 0)), "E-TYPE contradiction", f.loc(i),
+                      "the value tested for being negative is signed",
+                      "%s tests `%s < 0`, but the value is unsigned (%s) when it is compared: the test is never true, so the failure it is "
+                      "meant to recognise - a system call returning -1 - is taken for a success and the error path behind it is dead" % (
+                          f.pq, f.text(val), f.nodes[val].get("type") or src.get("type")))
+    ctx.counters["sign_tests"] = n
+    ctx.floor("sign_tests", floor, "tests of a result for being negative on the kill path")
